@@ -159,7 +159,7 @@ Proof.
     rewrite ltb_ge_false by blia. rewrite rd24_u24 by lia. cbv beta iota.
     eqb_true.
     reflexivity.
-  - destruct Hc as [->|->]; [discriminate|].
+  - destruct Hc as [-> | ->]; [discriminate|].
     rewrite Z.mod_small by lia. simpl. rewrite E. reflexivity.
 Qed.
 
@@ -175,5 +175,689 @@ Proof.
   destruct has.
   - rewrite rd16_u16 by lia. cbv beta iota. rewrite rd16_u16 by lia. cbv beta iota.
     rewrite Z.eqb_refl. reflexivity.
-  - subst sah. simpl app. rewrite rd16_u16 by lia. cbv beta iota. rewrite Z.eqb_refl. reflexivity.
+  - subst sah. cbv beta iota. rewrite app_nil_l. rewrite rd16_u16 by lia. cbv beta iota. rewrite Z.eqb_refl. reflexivity.
+Qed.
+
+(* ---------- loops ---------- *)
+Lemma flat_map_length_ge {A} (f : A -> bytes) (l : list A) :
+  (forall x, (1 <= length (f x))%nat) -> (length l <= length (flat_map f l))%nat.
+Proof.
+  intros Hf. induction l as [|x l IH]; simpl; [lia|]. rewrite app_length. specialize (Hf x). lia.
+Qed.
+Lemma flat_map_cons {A B} (f : A -> list B) x l : flat_map f (x :: l) = f x ++ flat_map f l.
+Proof. reflexivity. Qed.
+
+(* certificateMsg *)
+Lemma cert_loop_step f d :
+  d <> [] ->
+  cert_loop (S f) d =
+  (if blen d <? 4 then Bad else
+   do (cl, d1) <- rd24 d; do (c, d2) <- takeZ cl d1; do r <- cert_loop f d2; Ok (c :: r)).
+Proof. destruct d; [contradiction|reflexivity]. Qed.
+
+Lemma cert_loop_enc : forall certs fuel,
+  forallb (wf_str 1 16777216) certs = true -> (length certs <= fuel)%nat ->
+  cert_loop fuel (flat_map enc_cert24 certs) = Ok certs.
+Proof.
+  induction certs as [|c r IH]; intros fuel Hwf Hf.
+  - destruct fuel; reflexivity.
+  - simpl in Hwf. apply andb_true_iff in Hwf. destruct Hwf as [Hc Hr]. apply wf_str_spec in Hc.
+    destruct Hc as [_ Hc]. destruct fuel as [|f]; [simpl in Hf; lia|].
+    rewrite flat_map_cons. unfold enc_cert24 at 1. rewrite <- !app_assoc.
+    rewrite cert_loop_step by (unfold u24; simpl; discriminate).
+    rewrite ltb_ge_false by (pose proof (blen_nonneg (flat_map enc_cert24 r)); blia).
+    rewrite rd24_u24 by lia. cbv beta iota. rewrite takeZ_app. cbv beta iota.
+    rewrite IH by (auto; simpl in Hf; lia). reflexivity.
+Qed.
+
+Lemma roundtrip_cert certs :
+  forallb (wf_str 1 16777216) certs = true -> blen (flat_map enc_cert24 certs) < 16777216 ->
+  unmarshal_cert (marshal_cert certs) = Ok certs.
+Proof.
+  intros Hwf Hl. unfold unmarshal_cert, marshal_cert. cbv zeta.
+  set (body := flat_map enc_cert24 certs) in *. pose proof (blen_nonneg body).
+  rewrite blen_frame, hs_frame_eq. rewrite ltb_ge_false by blia.
+  rewrite takeZ4_frame. cbv beta iota. rewrite rd24_u24 by lia. cbv beta iota.
+  eqb_true. apply cert_loop_enc; [exact Hwf|].
+  apply flat_map_length_ge. intros x. unfold enc_cert24, u24. simpl. lia.
+Qed.
+
+(* sessionState *)
+Lemma ss_cert_loop_enc : forall certs rest,
+  forallb (wf_str 0 4294967296) certs = true ->
+  ss_cert_loop (length certs) (flat_map enc_cert32 certs ++ rest) = Ok (certs, rest).
+Proof.
+  induction certs as [|c r IH]; intros rest Hwf; [reflexivity|].
+  simpl in Hwf. apply andb_true_iff in Hwf. destruct Hwf as [Hc Hr]. apply wf_str_spec in Hc.
+  destruct Hc as [_ Hc]. rewrite flat_map_cons. unfold enc_cert32 at 1. rewrite <- !app_assoc.
+  simpl length. cbn [ss_cert_loop]. rewrite rd32_u32 by lia. cbv beta iota.
+  rewrite takeZ_app. cbv beta iota. rewrite IH by exact Hr. reflexivity.
+Qed.
+Lemma blen_flat_cert32 certs : 4 * llen certs <= blen (flat_map enc_cert32 certs).
+Proof.
+  induction certs as [|c r IH]; [unfold llen, blen; simpl; lia|].
+  rewrite flat_map_cons, llen_cons. unfold enc_cert32 at 1. pose proof (blen_nonneg c). blia.
+Qed.
+
+Lemma roundtrip_ss s : wf_ss s = true -> unmarshal_ss (marshal_ss s) = Ok s.
+Proof.
+  unfold wf_ss. rewrite !andb_true_iff. intros [[[[Hv Hs] Hm] Hn] Hc].
+  apply wf_u16_range in Hv, Hs. apply wf_str_spec in Hm. destruct Hm as [_ Hm]. apply Z.ltb_lt in Hn.
+  destruct s as [vers suite master certs]. simpl in *.
+  unfold unmarshal_ss, marshal_ss. simpl ss_vers. simpl ss_suite. simpl ss_master. simpl ss_certs.
+  pose proof (blen_nonneg master). pose proof (blen_nonneg (flat_map enc_cert32 certs)).
+  pose proof (llen_nonneg certs). pose proof (blen_flat_cert32 certs).
+  rewrite ltb_ge_false by blia.
+  rewrite rd16_u16 by lia. cbv beta iota. rewrite rd16_u16 by lia. cbv beta iota.
+  rewrite rd16_u16 by lia. cbv beta iota. rewrite takeZ_app. cbv beta iota.
+  rewrite rd16_u16 by lia. cbv beta iota.
+  rewrite ltb_ge_false by lia.
+  unfold llen. rewrite Nat2Z.id.
+  rewrite <- (app_nil_r (flat_map enc_cert32 certs)).
+  rewrite ss_cert_loop_enc by exact Hc. cbv beta iota. reflexivity.
+Qed.
+
+(* one-byte-length-prefixed string lists *)
+Lemma str8_loop_enc : forall l fuel acc,
+  forallb (wf_str 1 256) l = true -> (length l <= fuel)%nat ->
+  str8_loop fuel (flat_map enc_str8 l) acc = Ok (acc ++ l).
+Proof.
+  induction l as [|s r IH]; intros fuel acc Hwf Hf.
+  - rewrite app_nil_r. destruct fuel; reflexivity.
+  - simpl in Hwf. apply andb_true_iff in Hwf. destruct Hwf as [Hs Hr]. apply wf_str_spec in Hs.
+    destruct Hs as [_ Hs]. destruct fuel as [|f]; [simpl in Hf; lia|].
+    rewrite flat_map_cons. unfold enc_str8 at 1, u8. rewrite Z.mod_small by lia.
+    rewrite <- app_assoc. change ([blen s] ++ s ++ flat_map enc_str8 r) with (blen s :: (s ++ flat_map enc_str8 r)).
+    cbn [str8_loop].
+    assert (E1 : (blen s =? 0) = false) by (apply Z.eqb_neq; lia).
+    assert (E2 : (blen (s ++ flat_map enc_str8 r) <? blen s) = false).
+    { apply Z.ltb_ge. pose proof (blen_nonneg (flat_map enc_str8 r)). blia. }
+    rewrite E1, E2. cbn [orb]. cbv iota. rewrite takeZ_app. cbv beta iota.
+    rewrite IH by (auto; simpl in Hf; lia). rewrite <- app_assoc. reflexivity.
+Qed.
+Lemma str8_fuel l : (length l <= length (flat_map enc_str8 l))%nat.
+Proof. apply flat_map_length_ge. intros x. unfold enc_str8, u8. simpl. lia. Qed.
+
+Lemma blen_pos_cons (x : Z) l : (0 <? blen (x :: l)) = true.
+Proof. apply Z.ltb_lt. pose proof (blen_nonneg l). blia. Qed.
+Lemma llen_pos_cons {A} (x : A) l : (0 <? llen (x :: l)) = true.
+Proof. apply Z.ltb_lt. pose proof (llen_nonneg l). rewrite llen_cons. lia. Qed.
+
+(* ---------- extension blocks ---------- *)
+Lemma length_opt_ext c id p : length (opt_ext c id p) = if c then 1%nat else 0%nat.
+Proof. destruct c; reflexivity. Qed.
+Lemma exts_fuel (l : list (Z * bytes)) : (length l <= length (flat_map enc_ext l))%nat.
+Proof. apply flat_map_length_ge. intros [id p]. unfold enc_ext, u16. simpl. lia. Qed.
+Lemma enc_ext_app id p rest :
+  enc_ext (id, p) ++ rest = u16 id ++ u16 (blen p) ++ p ++ rest.
+Proof. unfold enc_ext. cbn [fst snd]. rewrite <- !app_assoc. reflexivity. Qed.
+Lemma u16_app_nonnil n r : u16 n ++ r <> [].
+Proof. unfold u16. simpl. discriminate. Qed.
+
+(* serverHello *)
+Lemma sh_loop_step f d m :
+  d <> [] ->
+  sh_ext_loop (S f) d m =
+  (do (id, d1) <- rd16 d; do (len, d2) <- rd16 d1; do (p, rest) <- takeZ len d2;
+   do m' <- sh_handle id len p m; sh_ext_loop f rest m').
+Proof. destruct d; [contradiction|reflexivity]. Qed.
+Lemma sh_loop_nil f m : sh_ext_loop f [] m = Ok m.
+Proof. destruct f; reflexivity. Qed.
+
+Lemma sh_opt_step (c : bool) id p rest m m1 fuel r :
+  0 <= id < 65536 -> (c = true -> blen p < 65536) ->
+  (c = true -> sh_handle id (blen p) p m = Ok m1) ->
+  sh_ext_loop fuel rest (if c then m1 else m) = Ok r ->
+  sh_ext_loop (length (opt_ext c id p) + fuel) (flat_map enc_ext (opt_ext c id p) ++ rest) m = Ok r.
+Proof.
+  intros Hid Hp Hh Hk. destruct c.
+  2: { change (flat_map enc_ext (opt_ext false id p) ++ rest) with rest.
+       change (length (opt_ext false id p) + fuel)%nat with fuel. exact Hk. }
+  - change (flat_map enc_ext (opt_ext true id p)) with (enc_ext (id, p) ++ []).
+    change (length (opt_ext true id p) + fuel)%nat with (S fuel).
+    rewrite app_nil_r, enc_ext_app. rewrite sh_loop_step by apply u16_app_nonnil.
+    pose proof (blen_nonneg p). specialize (Hp eq_refl).
+    rewrite rd16_u16 by lia. cbv beta iota. rewrite rd16_u16 by lia. cbv beta iota.
+    rewrite takeZ_app. cbv beta iota. rewrite (Hh eq_refl). exact Hk.
+Qed.
+
+Lemma sh_loop_mono : forall f d m r f',
+  sh_ext_loop f d m = Ok r -> (f <= f')%nat -> sh_ext_loop f' d m = Ok r.
+Proof.
+  induction f as [|f IH]; intros d m r f' H Hle.
+  - destruct d; simpl in H; [|discriminate]. inversion H. apply sh_loop_nil.
+  - destruct d as [|x d]; [simpl in H; inversion H; apply sh_loop_nil|].
+    destruct f' as [|f'']; [lia|].
+    rewrite sh_loop_step in * by discriminate.
+    destruct (rd16 (x :: d)) as [[id d1]| |]; try discriminate.
+    destruct (rd16 d1) as [[len d2]| |]; try discriminate.
+    destruct (takeZ len d2) as [[p rest]| |]; try discriminate.
+    destruct (sh_handle id len p m) as [m'| |]; try discriminate.
+    apply IH with (f' := f'') in H; [exact H|lia].
+Qed.
+
+Definition sh_set_npn (ps : list bytes) (m : server_hello) : server_hello :=
+  {| sh_vers := sh_vers m; sh_random := sh_random m; sh_sid := sh_sid m; sh_suite := sh_suite m;
+     sh_comp := sh_comp m; sh_npn := true; sh_protos := ps; sh_ocsp := sh_ocsp m;
+     sh_ticket := sh_ticket m; sh_reneg := sh_reneg m; sh_alpn := sh_alpn m |}.
+Definition sh_set_ocsp (m : server_hello) : server_hello :=
+  {| sh_vers := sh_vers m; sh_random := sh_random m; sh_sid := sh_sid m; sh_suite := sh_suite m;
+     sh_comp := sh_comp m; sh_npn := sh_npn m; sh_protos := sh_protos m; sh_ocsp := true;
+     sh_ticket := sh_ticket m; sh_reneg := sh_reneg m; sh_alpn := sh_alpn m |}.
+Definition sh_set_ticket (m : server_hello) : server_hello :=
+  {| sh_vers := sh_vers m; sh_random := sh_random m; sh_sid := sh_sid m; sh_suite := sh_suite m;
+     sh_comp := sh_comp m; sh_npn := sh_npn m; sh_protos := sh_protos m; sh_ocsp := sh_ocsp m;
+     sh_ticket := true; sh_reneg := sh_reneg m; sh_alpn := sh_alpn m |}.
+Definition sh_set_reneg (m : server_hello) : server_hello :=
+  {| sh_vers := sh_vers m; sh_random := sh_random m; sh_sid := sh_sid m; sh_suite := sh_suite m;
+     sh_comp := sh_comp m; sh_npn := sh_npn m; sh_protos := sh_protos m; sh_ocsp := sh_ocsp m;
+     sh_ticket := sh_ticket m; sh_reneg := true; sh_alpn := sh_alpn m |}.
+Definition sh_set_alpn (a : bytes) (m : server_hello) : server_hello :=
+  {| sh_vers := sh_vers m; sh_random := sh_random m; sh_sid := sh_sid m; sh_suite := sh_suite m;
+     sh_comp := sh_comp m; sh_npn := sh_npn m; sh_protos := sh_protos m; sh_ocsp := sh_ocsp m;
+     sh_ticket := sh_ticket m; sh_reneg := sh_reneg m; sh_alpn := a |}.
+Lemma sh_h_ocsp m : sh_handle 5 (blen []) [] m = Ok (sh_set_ocsp m).
+Proof. reflexivity. Qed.
+Lemma sh_h_ticket m : sh_handle 35 (blen []) [] m = Ok (sh_set_ticket m).
+Proof. reflexivity. Qed.
+Lemma sh_h_reneg m : sh_handle 65281 (blen [0]) [0] m = Ok (sh_set_reneg m).
+Proof. reflexivity. Qed.
+
+Lemma sh_h_npn protos m :
+  forallb (wf_str 1 256) protos = true ->
+  sh_handle 13172 (blen (flat_map enc_str8 protos)) (flat_map enc_str8 protos) m =
+  Ok (sh_set_npn (sh_protos m ++ protos) m).
+Proof.
+  intros H. unfold sh_handle. change (13172 =? 13172) with true. cbv iota.
+  rewrite str8_loop_enc by (auto using str8_fuel). reflexivity.
+Qed.
+Lemma sh_h_alpn a m :
+  1 <= blen a < 256 ->
+  sh_handle 16 (blen (u16 (blen a + 1) ++ u8 (blen a) ++ a)) (u16 (blen a + 1) ++ u8 (blen a) ++ a) m =
+  Ok (sh_set_alpn a m).
+Proof.
+  intros H. unfold sh_handle.
+  change (16 =? 13172) with false. change (16 =? 5) with false. change (16 =? 35) with false.
+  change (16 =? 65281) with false. change (16 =? 16) with true. cbv iota.
+  rewrite ltb_ge_false by blia. rewrite rd16_u16 by lia. cbv beta iota.
+  eqb_true. rewrite rd8_u8 by lia. cbv beta iota. eqb_true. reflexivity.
+Qed.
+
+Definition sh_m0 (m : server_hello) : server_hello :=
+  {| sh_vers := sh_vers m; sh_random := sh_random m; sh_sid := sh_sid m; sh_suite := sh_suite m;
+     sh_comp := sh_comp m; sh_npn := false; sh_protos := []; sh_ocsp := false; sh_ticket := false;
+     sh_reneg := false; sh_alpn := [] |}.
+
+Lemma sh_exts_parse m :
+  wf_sh m = true ->
+  sh_ext_loop (length (sh_exts m)) (flat_map enc_ext (sh_exts m)) (sh_m0 m) = Ok m.
+Proof.
+  unfold wf_sh. rewrite !andb_true_iff.
+  intros [[[[[[[[[Hv Hr] Hs] Hsu] Hc1] Hc2] Hp] Hn] Ha] Hf].
+  apply wf_str_spec in Ha. destruct Ha as [_ Ha].
+  unfold exts_fit in Hf. apply andb_true_iff in Hf. destruct Hf as [Hf _].
+  assert (Hfit : forall e, In e (sh_exts m) -> blen (snd e) < 65536).
+  { intros e He. rewrite forallb_forall in Hf. apply Z.ltb_lt. apply Hf. exact He. }
+  unfold sh_exts in *. rewrite !flat_map_app, !app_length.
+  rewrite <- (app_nil_r (flat_map enc_ext (opt_ext (0 <? blen (sh_alpn m)) 16 _))).
+  rewrite <- (Nat.add_0_r (length (opt_ext (0 <? blen (sh_alpn m)) 16 _))).
+  rewrite <- ?app_assoc, <- ?Nat.add_assoc.
+  assert (Hin : forall c id p, c = true -> In (id, p) (opt_ext c id p)) by (intros c id p ->; left; reflexivity).
+  eapply sh_opt_step; [lia| |intros Hc; apply sh_h_npn; exact Hp|].
+  { intros E. apply (Hfit (13172, _)). rewrite !in_app_iff. left. apply Hin. exact E. }
+  eapply sh_opt_step; [lia|intros _; unfold blen; simpl; lia|intros Hc; apply sh_h_ocsp|].
+  eapply sh_opt_step; [lia|intros _; unfold blen; simpl; lia|intros Hc; apply sh_h_ticket|].
+  eapply sh_opt_step; [lia|intros _; unfold blen; simpl; lia|intros Hc; apply sh_h_reneg|].
+  eapply sh_opt_step; [lia| |intros Hc; apply sh_h_alpn; apply Z.ltb_lt in Hc; lia|].
+  { intros E. apply (Hfit (16, _)). rewrite !in_app_iff. do 4 right. apply Hin. exact E. }
+  rewrite sh_loop_nil. f_equal.
+  destruct m as [vers random sid suite comp npn protos ocsp ticket reneg alpn].
+  cbn [sh_vers sh_random sh_sid sh_suite sh_comp sh_npn sh_protos sh_ocsp sh_ticket sh_reneg sh_alpn] in *.
+  assert (Hprotos : npn = false -> protos = []).
+  { intros ->. simpl in Hn. destruct protos; [reflexivity|]. unfold llen in Hn. simpl in Hn. discriminate. }
+  assert (Hnil : forall l : bytes, (0 <? blen l) = false -> l = []).
+  { intros [|x l] E; [reflexivity|]. rewrite blen_pos_cons in E. discriminate. }
+  clear Hv Hr Hs Hsu Hc1 Hc2 Hp Hn Ha Hf Hfit.
+  destruct npn; [|rewrite (Hprotos eq_refl)]; clear Hprotos;
+  (destruct ocsp; destruct ticket; destruct reneg;
+   (destruct (0 <? blen alpn) eqn:E1; [|apply Hnil in E1; subst alpn]); reflexivity).
+Qed.
+
+Lemma pad32_id r : blen r = 32 -> pad32 r = r.
+Proof.
+  intros H. unfold pad32. assert (Hl : length r = 32%nat) by (unfold blen in H; lia).
+  rewrite firstn_app, Hl. simpl (32 - 32)%nat. rewrite firstn_O, app_nil_r.
+  rewrite <- Hl. apply firstn_all.
+Qed.
+
+Definition sh_tail (d : bytes) (m0 : server_hello) : res server_hello :=
+  match d with
+  | [] => Ok m0
+  | _ => do (el, d') <- rd16 d; if negb (blen d' =? el) then Bad else sh_ext_loop (length d') d' m0
+  end.
+
+Lemma sh_tail_ok m : wf_sh m = true -> sh_tail (enc_exts (sh_exts m)) (sh_m0 m) = Ok m.
+Proof.
+  intros Hwf. pose proof (sh_exts_parse m Hwf) as Hp.
+  assert (Hfit : blen (flat_map enc_ext (sh_exts m)) < 65536).
+  { unfold wf_sh in Hwf. rewrite !andb_true_iff in Hwf. destruct Hwf as [_ Hf].
+    unfold exts_fit in Hf. apply andb_true_iff in Hf. destruct Hf as [_ Hf]. apply Z.ltb_lt. exact Hf. }
+  unfold enc_exts. destruct (sh_exts m) as [|e l] eqn:E.
+  - simpl in Hp. simpl. exact Hp.
+  - set (b := flat_map enc_ext (e :: l)) in *. cbv zeta.
+    unfold sh_tail.
+    destruct (u16 (blen b) ++ b) as [|x t] eqn:Ed; [exfalso; eapply u16_app_nonnil; exact Ed|].
+    rewrite <- Ed. pose proof (blen_nonneg b).
+    rewrite rd16_u16 by lia. cbv beta iota. rewrite Z.eqb_refl. cbn [negb]. cbv iota.
+    eapply sh_loop_mono; [exact Hp|]. unfold b. rewrite <- E. apply exts_fuel.
+Qed.
+
+Lemma roundtrip_sh m : wf_sh m = true -> unmarshal_sh (marshal_sh m) = Ok m.
+Proof.
+  intros Hwf. pose proof (sh_tail_ok m Hwf) as Ht.
+  unfold wf_sh in Hwf. rewrite !andb_true_iff in Hwf.
+  destruct Hwf as [[[[[[[[[Hv Hr] Hs] Hsu] Hc1] Hc2] Hp] Hn] Ha] Hf].
+  apply wf_u16_range in Hv, Hsu. apply wf_str_spec in Hr, Hs. destruct Hr as [_ Hr]. destruct Hs as [_ Hs].
+  apply Z.leb_le in Hc1. apply Z.ltb_lt in Hc2.
+  destruct m as [vers random sid suite comp npn protos ocsp ticket reneg alpn]. simpl in *.
+  unfold unmarshal_sh, marshal_sh. cbn [sh_vers sh_random sh_sid sh_suite sh_comp].
+  rewrite pad32_id by lia.
+  set (tail := enc_exts _) in *. pose proof (blen_nonneg tail).
+  rewrite blen_frame, hs_frame_eq. rewrite ltb_ge_false by blia.
+  rewrite takeZ4_frame. cbv beta iota. rewrite rd16_u16 by lia. cbv beta iota.
+  rewrite (takeZ_app' 32 random) by lia. cbv beta iota.
+  rewrite rd8_u8 by lia. cbv beta iota. rewrite ltb_ge_false by lia.
+  rewrite takeZ_app. cbv beta iota. rewrite rd16_u16 by lia. cbv beta iota.
+  rewrite rd8_u8 by lia. cbv beta iota zeta.
+  exact Ht.
+Qed.
+
+(* clientHello *)
+Lemma ch_loop_step f d m :
+  d <> [] ->
+  ch_ext_loop (S f) d m =
+  (do (id, d1) <- rd16 d; do (len, d2) <- rd16 d1; do (p, rest) <- takeZ len d2;
+   do m' <- ch_handle id len p d2 (ch_push id m); ch_ext_loop f rest m').
+Proof. destruct d; [contradiction|reflexivity]. Qed.
+Lemma ch_loop_nil f m : ch_ext_loop f [] m = Ok m.
+Proof. destruct f; reflexivity. Qed.
+
+Lemma ch_opt_step (c : bool) id p rest m m1 fuel r :
+  0 <= id < 65536 -> (c = true -> blen p < 65536) ->
+  (c = true -> ch_handle id (blen p) p (p ++ rest) (ch_push id m) = Ok m1) ->
+  ch_ext_loop fuel rest (if c then m1 else m) = Ok r ->
+  ch_ext_loop (length (opt_ext c id p) + fuel) (flat_map enc_ext (opt_ext c id p) ++ rest) m = Ok r.
+Proof.
+  intros Hid Hp Hh Hk. destruct c.
+  2: { change (flat_map enc_ext (opt_ext false id p) ++ rest) with rest.
+       change (length (opt_ext false id p) + fuel)%nat with fuel. exact Hk. }
+  - change (flat_map enc_ext (opt_ext true id p)) with (enc_ext (id, p) ++ []).
+    change (length (opt_ext true id p) + fuel)%nat with (S fuel).
+    rewrite app_nil_r, enc_ext_app. rewrite ch_loop_step by apply u16_app_nonnil.
+    pose proof (blen_nonneg p). specialize (Hp eq_refl).
+    rewrite rd16_u16 by lia. cbv beta iota. rewrite rd16_u16 by lia. cbv beta iota.
+    rewrite takeZ_app. cbv beta iota. rewrite (Hh eq_refl). exact Hk.
+Qed.
+
+Lemma ch_loop_mono : forall f d m r f',
+  ch_ext_loop f d m = Ok r -> (f <= f')%nat -> ch_ext_loop f' d m = Ok r.
+Proof.
+  induction f as [|f IH]; intros d m r f' H Hle.
+  - destruct d; simpl in H; [|discriminate]. inversion H. apply ch_loop_nil.
+  - destruct d as [|x d]; [simpl in H; inversion H; apply ch_loop_nil|].
+    destruct f' as [|f'']; [lia|].
+    rewrite ch_loop_step in * by discriminate.
+    destruct (rd16 (x :: d)) as [[id d1]| |]; try discriminate.
+    destruct (rd16 d1) as [[len d2]| |]; try discriminate.
+    destruct (takeZ len d2) as [[p rest]| |]; try discriminate.
+    destruct (ch_handle id len p d2 (ch_push id m)) as [m'| |]; try discriminate.
+    apply IH with (f' := f'') in H; [exact H|lia].
+Qed.
+
+Ltac closed_eqb :=
+  repeat match goal with
+  | |- context [Z.eqb (Zpos ?a) (Zpos ?b)] =>
+    let v := eval compute in (Z.eqb (Zpos a) (Zpos b)) in change (Z.eqb (Zpos a) (Zpos b)) with v
+  | |- context [Z.eqb (Zpos ?a) 0] => change (Z.eqb (Zpos a) 0) with false
+  | |- context [Z.eqb 0 0] => change (Z.eqb 0 0) with true
+  end; cbv iota.
+
+Lemma ch_h_npn rest m : ch_handle 13172 (blen []) [] ([] ++ rest) m = Ok (ch_set_npn true m).
+Proof. reflexivity. Qed.
+Lemma ch_h_ocsp rest m :
+  ch_handle 5 (blen [1; 0; 0; 0; 0]) [1; 0; 0; 0; 0] ([1; 0; 0; 0; 0] ++ rest) m = Ok (ch_set_ocsp true m).
+Proof. reflexivity. Qed.
+Lemma ch_h_reneg rest m : ch_handle 65281 (blen [0]) [0] ([0] ++ rest) m = Ok (ch_set_reneg true m).
+Proof. reflexivity. Qed.
+Lemma ch_h_ticket t rest m : ch_handle 35 (blen t) t (t ++ rest) m = Ok (ch_set_ticket t m).
+Proof. unfold ch_handle. closed_eqb. reflexivity. Qed.
+
+Lemma ch_h_sni s rest m :
+  1 <= blen s -> blen s + 3 < 65536 ->
+  let p := u16 (blen s + 3) ++ [0] ++ u16 (blen s) ++ s in
+  ch_handle 0 (blen p) p (p ++ rest) m = Ok (ch_set_sni s m).
+Proof.
+  intros H1 H2 p. unfold ch_handle. closed_eqb. unfold p.
+  rewrite ltb_ge_false by blia. rewrite <- !app_assoc. rewrite rd16_u16 by lia. cbv beta iota.
+  change ([0] ++ u16 (blen s) ++ s ++ rest) with (0 :: (u16 (blen s) ++ s ++ rest)).
+  cbn [sni_loop]. rewrite (proj2 (Z.leb_gt _ _)) by lia.
+  rewrite rd8_cons. cbv beta iota. rewrite rd16_u16 by lia. cbv beta iota.
+  rewrite takeZ_app. cbv beta iota. closed_eqb. reflexivity.
+Qed.
+
+Lemma ch_h_curves cs rest m :
+  forallb wf_u16 cs = true -> 2 * blen cs < 65536 ->
+  let p := u16 (2 * blen cs) ++ enc_u16s cs in
+  ch_handle 10 (blen p) p (p ++ rest) m = Ok (ch_set_curves cs m).
+Proof.
+  intros Hw Hl p. unfold ch_handle. closed_eqb. unfold p. pose proof (blen_nonneg cs).
+  rewrite ltb_ge_false by blia. rewrite rd16_u16 by lia. cbv beta iota.
+  rewrite odd_double. cbn [orb]. eqb_true. rewrite dec_enc_u16s by exact Hw. reflexivity.
+Qed.
+
+Lemma ch_h_sigalgs cs rest m :
+  forallb wf_u16 cs = true -> 2 * blen cs < 65536 ->
+  let p := u16 (2 * blen cs) ++ enc_u16s cs in
+  ch_handle 13 (blen p) p (p ++ rest) m = Ok (ch_set_sigalgs cs m).
+Proof.
+  intros Hw Hl p. unfold ch_handle. closed_eqb. unfold p. pose proof (blen_nonneg cs).
+  rewrite ltb_ge_false by blia.
+  replace (blen (u16 (2 * blen cs) ++ enc_u16s cs)) with (2 * (1 + blen cs)) by blia.
+  rewrite odd_double. cbn [orb]. cbv iota. rewrite rd16_u16 by lia. cbv beta iota.
+  eqb_true. rewrite dec_enc_u16s by exact Hw. reflexivity.
+Qed.
+
+Lemma ch_h_points ps rest m :
+  blen ps < 256 ->
+  let p := u8 (blen ps) ++ ps in
+  ch_handle 11 (blen p) p (p ++ rest) m = Ok (ch_set_points ps m).
+Proof.
+  intros Hl p. unfold ch_handle. closed_eqb. unfold p. pose proof (blen_nonneg ps).
+  rewrite ltb_ge_false by blia. rewrite rd8_u8 by lia. cbv beta iota.
+  eqb_true. reflexivity.
+Qed.
+
+Lemma ch_h_alpn al rest m :
+  forallb (wf_str 1 256) al = true -> blen (flat_map enc_str8 al) < 65536 ->
+  let p := (let s := flat_map enc_str8 al in u16 (blen s) ++ s) in
+  ch_handle 16 (blen p) p (p ++ rest) m = Ok (ch_set_alpn (ch_alpn m ++ al) m).
+Proof.
+  intros Hw Hl p. unfold ch_handle. closed_eqb. unfold p. cbv zeta.
+  pose proof (blen_nonneg (flat_map enc_str8 al)).
+  rewrite ltb_ge_false by blia. rewrite rd16_u16 by lia. cbv beta iota.
+  eqb_true. rewrite str8_loop_enc by (auto using str8_fuel). reflexivity.
+Qed.
+
+Definition ch_m0 (m : client_hello) : client_hello :=
+  {| ch_vers := ch_vers m; ch_random := ch_random m; ch_sid := ch_sid m; ch_suites := ch_suites m;
+     ch_comp := ch_comp m; ch_npn := false; ch_sni := []; ch_ocsp := false; ch_curves := [];
+     ch_points := []; ch_ticket_ok := false; ch_ticket := []; ch_sigalgs := [];
+     ch_reneg := existsb (Z.eqb scsv_renegotiation) (ch_suites m); ch_alpn := [];
+     ch_padding := false; ch_extids := [] |}.
+(* what unmarshal returns for marshal m: m itself, with the two derived fields filled in *)
+Definition ch_parsed (m : client_hello) : client_hello :=
+  {| ch_vers := ch_vers m; ch_random := ch_random m; ch_sid := ch_sid m; ch_suites := ch_suites m;
+     ch_comp := ch_comp m; ch_npn := ch_npn m; ch_sni := ch_sni m; ch_ocsp := ch_ocsp m;
+     ch_curves := ch_curves m; ch_points := ch_points m; ch_ticket_ok := ch_ticket_ok m;
+     ch_ticket := ch_ticket m; ch_sigalgs := ch_sigalgs m; ch_reneg := ch_reneg m; ch_alpn := ch_alpn m;
+     ch_padding := false; ch_extids := map fst (ch_exts m) |}.
+
+
+Lemma ch_exts_parse m :
+  wf_ch m = true ->
+  ch_ext_loop (length (ch_exts m)) (flat_map enc_ext (ch_exts m)) (ch_m0 m) = Ok (ch_parsed m).
+Proof.
+  unfold wf_ch. rewrite !andb_true_iff.
+  intros [[[[[[[[[[[[[[Hv Hr] Hs] Hsu] Hsl] Hc] Hsn] Hcu] Hpo] Hti] Htk] Hsa] Hal] Hre] Hf].
+  apply wf_str_spec in Hpo. destruct Hpo as [_ Hpo].
+  unfold exts_fit in Hf. apply andb_true_iff in Hf. destruct Hf as [Hf _].
+  assert (Hfit : forall e, In e (ch_exts m) -> blen (snd e) < 65536).
+  { intros e He. rewrite forallb_forall in Hf. apply Z.ltb_lt. apply Hf. exact He. }
+  assert (Hin : forall c id p, c = true -> In (id, p) (opt_ext c id p)) by (intros c id p ->; left; reflexivity).
+  (* payload bounds for each optional extension *)
+  assert (F2 : (0 <? blen (ch_sni m)) = true -> blen (u16 (blen (ch_sni m) + 3) ++ [0] ++ u16 (blen (ch_sni m)) ++ ch_sni m) < 65536).
+  { intros E. apply (Hfit (0, _)). unfold ch_exts. rewrite !in_app_iff. right; left. apply Hin. exact E. }
+  assert (F4 : (0 <? blen (ch_curves m)) = true -> blen (u16 (2 * blen (ch_curves m)) ++ enc_u16s (ch_curves m)) < 65536).
+  { intros E. apply (Hfit (10, _)). unfold ch_exts. rewrite !in_app_iff. do 3 right; left. apply Hin. exact E. }
+  assert (F5 : (0 <? blen (ch_points m)) = true -> blen (u8 (blen (ch_points m)) ++ ch_points m) < 65536).
+  { intros E. apply (Hfit (11, _)). unfold ch_exts. rewrite !in_app_iff. do 4 right; left. apply Hin. exact E. }
+  assert (F6 : ch_ticket_ok m = true -> blen (ch_ticket m) < 65536).
+  { intros E. apply (Hfit (35, _)). unfold ch_exts. rewrite !in_app_iff. do 5 right; left. apply Hin. exact E. }
+  assert (F7 : (0 <? blen (ch_sigalgs m)) = true -> blen (u16 (2 * blen (ch_sigalgs m)) ++ enc_u16s (ch_sigalgs m)) < 65536).
+  { intros E. apply (Hfit (13, _)). unfold ch_exts. rewrite !in_app_iff. do 6 right; left. apply Hin. exact E. }
+  assert (F9 : (0 <? llen (ch_alpn m)) = true ->
+               blen (let s := flat_map enc_str8 (ch_alpn m) in u16 (blen s) ++ s) < 65536).
+  { intros E. apply (Hfit (16, _)). unfold ch_exts. rewrite !in_app_iff. do 8 right. apply Hin. exact E. }
+  clear Hfit Hf.
+  unfold ch_exts. rewrite !flat_map_app, !app_length.
+  rewrite <- (app_nil_r (flat_map enc_ext (opt_ext (0 <? llen (ch_alpn m)) 16 _))).
+  rewrite <- (Nat.add_0_r (length (opt_ext (0 <? llen (ch_alpn m)) 16 _))).
+  rewrite <- ?app_assoc, <- ?Nat.add_assoc.
+  eapply ch_opt_step; [lia|intros _; unfold blen; simpl; lia|intros _; apply ch_h_npn|].
+  eapply ch_opt_step; [lia|exact F2|intros E; apply ch_h_sni; [apply Z.ltb_lt in E; lia|specialize (F2 E); blia]|].
+  eapply ch_opt_step; [lia|intros _; unfold blen; simpl; lia|intros _; apply ch_h_ocsp|].
+  eapply ch_opt_step; [lia|exact F4|intros E; apply ch_h_curves; [exact Hcu|specialize (F4 E); blia]|].
+  eapply ch_opt_step; [lia|exact F5|intros E; apply ch_h_points; lia|].
+  eapply ch_opt_step; [lia|exact F6|intros _; apply ch_h_ticket|].
+  eapply ch_opt_step; [lia|exact F7|intros E; apply ch_h_sigalgs; [exact Hsa|specialize (F7 E); blia]|].
+  eapply ch_opt_step; [lia|intros _; unfold blen; simpl; lia|intros _; apply ch_h_reneg|].
+  eapply ch_opt_step; [lia|exact F9|intros E; apply ch_h_alpn; [exact Hal|specialize (F9 E); cbv zeta in F9; blia]|].
+  rewrite ch_loop_nil. f_equal.
+  clear F2 F4 F5 F6 F7 F9.
+  destruct m as [vers random sid suites comp npn sni ocsp curves points tok ticket sigalgs reneg alpn pad ids].
+  cbn [ch_vers ch_random ch_sid ch_suites ch_comp ch_npn ch_sni ch_ocsp ch_curves ch_points ch_ticket_ok
+       ch_ticket ch_sigalgs ch_reneg ch_alpn ch_padding ch_extids] in *.
+  assert (Hticket : tok = false -> ticket = []).
+  { intros ->. simpl in Htk. destruct ticket; [reflexivity|]. unfold blen in Htk. simpl in Htk. discriminate. }
+  assert (Hreneg : reneg = false -> existsb (Z.eqb scsv_renegotiation) suites = false).
+  { intros ->. simpl in Hre. destruct (existsb (Z.eqb scsv_renegotiation) suites); [discriminate|reflexivity]. }
+  unfold ch_parsed, ch_m0, ch_exts.
+  cbn [ch_vers ch_random ch_sid ch_suites ch_comp ch_npn ch_sni ch_ocsp ch_curves ch_points ch_ticket_ok
+       ch_ticket ch_sigalgs ch_reneg ch_alpn ch_padding ch_extids].
+  generalize dependent (existsb (Z.eqb scsv_renegotiation) suites). intros e _ Hreneg.
+  clear Hv Hr Hs Hsu Hsl Hc Hsn Hcu Hpo Hti Hsa Hal Htk.
+  assert (Hnil : forall l : bytes, (0 <? blen l) = false -> l = []).
+  { intros [|x l] E; [reflexivity|]. rewrite blen_pos_cons in E. discriminate. }
+  assert (Hnil' : forall l : list bytes, (0 <? llen l) = false -> l = []).
+  { intros [|x l] E; [reflexivity|]. rewrite llen_pos_cons in E. discriminate. }
+  destruct tok; [|rewrite (Hticket eq_refl)]; clear Hticket;
+  (destruct reneg; [|rewrite (Hreneg eq_refl)]; clear Hreneg;
+   destruct npn; destruct ocsp;
+   (destruct (0 <? blen sni) eqn:E1; [|apply Hnil in E1; subst sni]);
+   (destruct (0 <? blen curves) eqn:E2; [|apply Hnil in E2; subst curves]);
+   (destruct (0 <? blen points) eqn:E3; [|apply Hnil in E3; subst points]);
+   (destruct (0 <? blen sigalgs) eqn:E4; [|apply Hnil in E4; subst sigalgs]);
+   (destruct (0 <? llen alpn) eqn:E5; [|apply Hnil' in E5; subst alpn]);
+   reflexivity).
+Qed.
+
+Definition ch_tail (d : bytes) (m0 : client_hello) : res client_hello :=
+  match d with
+  | [] => Ok m0
+  | _ => do (el, d') <- rd16 d; if negb (el =? blen d') then Bad else ch_ext_loop (length d') d' m0
+  end.
+
+Lemma ch_tail_ok m : wf_ch m = true -> ch_tail (enc_exts (ch_exts m)) (ch_m0 m) = Ok (ch_parsed m).
+Proof.
+  intros Hwf. pose proof (ch_exts_parse m Hwf) as Hp.
+  assert (Hfit : blen (flat_map enc_ext (ch_exts m)) < 65536).
+  { unfold wf_ch in Hwf. rewrite !andb_true_iff in Hwf. destruct Hwf as [_ Hf].
+    unfold exts_fit in Hf. apply andb_true_iff in Hf. destruct Hf as [_ Hf]. apply Z.ltb_lt. exact Hf. }
+  unfold enc_exts. destruct (ch_exts m) as [|e l] eqn:E.
+  - simpl in Hp. simpl. exact Hp.
+  - set (b := flat_map enc_ext (e :: l)) in *. cbv zeta.
+    unfold ch_tail.
+    destruct (u16 (blen b) ++ b) as [|x t] eqn:Ed; [exfalso; eapply u16_app_nonnil; exact Ed|].
+    rewrite <- Ed. pose proof (blen_nonneg b).
+    rewrite rd16_u16 by lia. cbv beta iota. rewrite Z.eqb_refl. cbn [negb]. cbv iota.
+    eapply ch_loop_mono; [exact Hp|]. unfold b. rewrite <- E. apply exts_fuel.
+Qed.
+
+(* clientHelloMsg: unmarshal (marshal m) returns m (with padding = false and the list of extension
+   ids that marshal emitted) for every m within field widths *)
+Lemma roundtrip_ch m : wf_ch m = true -> unmarshal_ch (marshal_ch m) = Ok (ch_parsed m).
+Proof.
+  intros Hwf. pose proof (ch_tail_ok m Hwf) as Ht.
+  unfold wf_ch in Hwf. rewrite !andb_true_iff in Hwf.
+  destruct Hwf as [[[[[[[[[[[[[[Hv Hr] Hs] Hsu] Hsl] Hc] Hsn] Hcu] Hpo] Hti] Htk] Hsa] Hal] Hre] Hf].
+  apply wf_u16_range in Hv. apply wf_str_spec in Hr, Hs, Hc.
+  destruct Hr as [_ Hr]. destruct Hs as [_ Hs]. destruct Hc as [_ Hc]. apply Z.ltb_lt in Hsl.
+  destruct m as [vers random sid suites comp npn sni ocsp curves points tok ticket sigalgs reneg alpn pad ids].
+  cbn [ch_vers ch_random ch_sid ch_suites ch_comp] in *.
+  unfold unmarshal_ch, marshal_ch. cbn [ch_vers ch_random ch_sid ch_suites ch_comp].
+  rewrite pad32_id by lia.
+  set (tail := enc_exts _) in *. pose proof (blen_nonneg tail). pose proof (blen_nonneg suites).
+  pose proof (blen_nonneg comp).
+  rewrite blen_frame, hs_frame_eq. rewrite ltb_ge_false by blia.
+  rewrite takeZ4_frame. cbv beta iota. rewrite rd16_u16 by lia. cbv beta iota.
+  rewrite (takeZ_app' 32 random) by lia. cbv beta iota.
+  rewrite rd8_u8 by lia. cbv beta iota. rewrite ltb_ge_false by lia.
+  rewrite takeZ_app. cbv beta iota. rewrite rd16_u16 by lia. cbv beta iota.
+  rewrite odd_double. cbv iota.
+  rewrite (takeZ_app' (2 * blen suites) (enc_u16s suites)) by (rewrite blen_enc_u16s; reflexivity).
+  cbv beta iota. rewrite rd8_u8 by lia. cbv beta iota.
+  rewrite takeZ_app. cbv beta iota zeta.
+  rewrite dec_enc_u16s by exact Hsu.
+  exact Ht.
+Qed.
+
+(* ---------- non-vacuity examples ---------- *)
+Definition ch_example : client_hello :=
+  {| ch_vers := 771; ch_random := repeat 7 32; ch_sid := [1; 2; 3]; ch_suites := [49199; 255; 22016];
+     ch_comp := [0]; ch_npn := true; ch_sni := [97; 46; 98]; ch_ocsp := true; ch_curves := [23; 24];
+     ch_points := [0]; ch_ticket_ok := true; ch_ticket := [9; 9]; ch_sigalgs := [1025; 513];
+     ch_reneg := true; ch_alpn := [[104; 50]; [104; 116; 116; 112; 47; 49; 46; 49]];
+     ch_padding := false; ch_extids := [] |}.
+Lemma ch_example_ok :
+  wf_ch ch_example = true /\ length (ch_exts ch_example) = 9%nat /\
+  unmarshal_ch (marshal_ch ch_example) = Ok (ch_parsed ch_example).
+Proof. split; [vm_compute; reflexivity|]. split; [reflexivity|]. apply roundtrip_ch. vm_compute. reflexivity. Qed.
+Definition sh_example : server_hello :=
+  {| sh_vers := 771; sh_random := repeat 5 32; sh_sid := [4]; sh_suite := 49199; sh_comp := 0;
+     sh_npn := true; sh_protos := [[104; 50]]; sh_ocsp := true; sh_ticket := true; sh_reneg := true;
+     sh_alpn := [104; 50] |}.
+Lemma sh_example_ok : wf_sh sh_example = true /\ length (sh_exts sh_example) = 5%nat.
+Proof. split; [vm_compute; reflexivity|reflexivity]. Qed.
+
+(* ---------- totality: no parser ever runs out of loop fuel ---------- *)
+Lemma rd8_len d x r : rd8 d = Ok (x, r) -> S (length r) = length d.
+Proof. destruct d; simpl; intros H; inversion H; reflexivity. Qed.
+Lemma rd16_len d x r : rd16 d = Ok (x, r) -> S (S (length r)) = length d.
+Proof. destruct d as [|a [|b d]]; simpl; intros H; inversion H; reflexivity. Qed.
+Lemma rd24_len d x r : rd24 d = Ok (x, r) -> S (S (S (length r))) = length d.
+Proof. destruct d as [|a [|b [|c d]]]; simpl; intros H; inversion H; reflexivity. Qed.
+Lemma takeZ_len n d a r : takeZ n d = Ok (a, r) -> (length r <= length d)%nat.
+Proof.
+  unfold takeZ. destruct ((0 <=? n) && (n <=? blen d)); intros H; inversion H.
+  rewrite skipn_length. lia.
+Qed.
+Lemma rd8_nf d : rd8 d <> Fuel. Proof. destruct d; discriminate. Qed.
+Lemma rd16_nf d : rd16 d <> Fuel. Proof. destruct d as [|a [|b d]]; discriminate. Qed.
+Lemma rd24_nf d : rd24 d <> Fuel. Proof. destruct d as [|a [|b [|c d]]]; discriminate. Qed.
+Lemma rd32_nf d : rd32 d <> Fuel. Proof. destruct d as [|a [|b [|c [|e d]]]]; discriminate. Qed.
+Lemma takeZ_nf n d : takeZ n d <> Fuel.
+Proof. unfold takeZ. destruct ((0 <=? n) && (n <=? blen d)); discriminate. Qed.
+
+(* destructs the head `do`/`if` of a goal `... <> Fuel`, closing the impossible Fuel cases of primitives *)
+Ltac nf_step :=
+  match goal with
+  | |- (match rd8 ?d with _ => _ end) <> Fuel =>
+    let E := fresh "E" in destruct (rd8 d) as [[? ?]| |] eqn:E; [|discriminate|exfalso; exact (rd8_nf _ E)]
+  | |- (match rd16 ?d with _ => _ end) <> Fuel =>
+    let E := fresh "E" in destruct (rd16 d) as [[? ?]| |] eqn:E; [|discriminate|exfalso; exact (rd16_nf _ E)]
+  | |- (match rd24 ?d with _ => _ end) <> Fuel =>
+    let E := fresh "E" in destruct (rd24 d) as [[? ?]| |] eqn:E; [|discriminate|exfalso; exact (rd24_nf _ E)]
+  | |- (match rd32 ?d with _ => _ end) <> Fuel =>
+    let E := fresh "E" in destruct (rd32 d) as [[? ?]| |] eqn:E; [|discriminate|exfalso; exact (rd32_nf _ E)]
+  | |- (match takeZ ?n ?d with _ => _ end) <> Fuel =>
+    let E := fresh "E" in destruct (takeZ n d) as [[? ?]| |] eqn:E; [|discriminate|exfalso; exact (takeZ_nf _ _ E)]
+  | |- (if ?c then _ else _) <> Fuel => destruct c
+  | |- Ok _ <> Fuel => discriminate
+  | |- Bad <> Fuel => discriminate
+  end.
+
+Lemma str8_loop_nf : forall f d acc, (length d <= f)%nat -> str8_loop f d acc <> Fuel.
+Proof.
+  induction f as [|f IH]; intros d acc Hl.
+  - destruct d; [discriminate|simpl in Hl; lia].
+  - destruct d as [|n d1]; [discriminate|]. cbn [str8_loop]. simpl in Hl.
+    repeat nf_step. apply IH. apply takeZ_len in E. lia.
+Qed.
+
+Lemma sni_loop_nf : forall f n d m, (S (length d) <= f)%nat -> sni_loop f n d m <> Fuel.
+Proof.
+  induction f as [|f IH]; intros n d m Hl; [lia|].
+  cbn [sni_loop]. repeat nf_step. apply IH.
+  apply rd8_len in E. apply rd16_len in E0. apply takeZ_len in E1. lia.
+Qed.
+
+Lemma ch_handle_nf id len p rest m : ch_handle id len p rest m <> Fuel.
+Proof.
+  unfold ch_handle. repeat nf_step.
+  - apply sni_loop_nf. lia.
+  - destruct (str8_loop (length l) l (ch_alpn m)) eqn:E1; try discriminate.
+    exfalso. eapply str8_loop_nf; [|exact E1]. lia.
+Qed.
+
+Lemma ch_ext_loop_nf : forall f d m, (length d <= f)%nat -> ch_ext_loop f d m <> Fuel.
+Proof.
+  induction f as [|f IH]; intros d m Hl.
+  - destruct d; [discriminate|simpl in Hl; lia].
+  - destruct d as [|x d]; [discriminate|]. rewrite ch_loop_step by discriminate.
+    repeat nf_step.
+    destruct (ch_handle z z0 l l0 (ch_push z m)) as [m'| |] eqn:Eh; [|discriminate|exfalso; exact (ch_handle_nf _ _ _ _ _ Eh)].
+    apply IH. apply rd16_len in E, E0. apply takeZ_len in E1. lia.
+Qed.
+
+Theorem unmarshal_ch_total data : unmarshal_ch data <> Fuel.
+Proof.
+  unfold unmarshal_ch. repeat nf_step. cbv zeta.
+  destruct l8 as [|x t] eqn:Ed; [discriminate|]. rewrite <- Ed. repeat nf_step.
+  apply ch_ext_loop_nf. lia.
+Qed.
+
+Lemma sh_handle_nf id len p m : sh_handle id len p m <> Fuel.
+Proof.
+  unfold sh_handle. repeat nf_step.
+  destruct (str8_loop (length p) p (sh_protos m)) eqn:E1; try discriminate.
+  exfalso. eapply str8_loop_nf; [|exact E1]. lia.
+Qed.
+Lemma sh_ext_loop_nf : forall f d m, (length d <= f)%nat -> sh_ext_loop f d m <> Fuel.
+Proof.
+  induction f as [|f IH]; intros d m Hl.
+  - destruct d; [discriminate|simpl in Hl; lia].
+  - destruct d as [|x d]; [discriminate|]. rewrite sh_loop_step by discriminate.
+    repeat nf_step.
+    destruct (sh_handle z z0 l m) as [m'| |] eqn:Eh; [|discriminate|exfalso; exact (sh_handle_nf _ _ _ _ Eh)].
+    apply IH. apply rd16_len in E, E0. apply takeZ_len in E1. lia.
+Qed.
+Theorem unmarshal_sh_total data : unmarshal_sh data <> Fuel.
+Proof.
+  unfold unmarshal_sh. repeat nf_step. cbv zeta.
+  destruct l4 as [|x t] eqn:Ed; [discriminate|]. rewrite <- Ed. repeat nf_step.
+  apply sh_ext_loop_nf. lia.
+Qed.
+
+Lemma cert_loop_nf : forall f d, (length d <= f)%nat -> cert_loop f d <> Fuel.
+Proof.
+  induction f as [|f IH]; intros d Hl.
+  - destruct d; [discriminate|simpl in Hl; lia].
+  - destruct d as [|x d]; [discriminate|]. rewrite cert_loop_step by discriminate.
+    repeat nf_step.
+    destruct (cert_loop f l0) eqn:Ec; try discriminate.
+    exfalso. eapply IH; [|exact Ec]. apply rd24_len in E. apply takeZ_len in E0. lia.
+Qed.
+Theorem unmarshal_cert_total data : unmarshal_cert data <> Fuel.
+Proof. unfold unmarshal_cert. repeat nf_step. apply cert_loop_nf. lia. Qed.
+
+Lemma ss_cert_loop_nf : forall n d, ss_cert_loop n d <> Fuel.
+Proof.
+  induction n as [|n IH]; intros d; [discriminate|]. cbn [ss_cert_loop]. repeat nf_step.
+  destruct (ss_cert_loop n l0) as [[? ?]| |] eqn:Ec; try discriminate. exfalso. exact (IH _ Ec).
+Qed.
+Theorem unmarshal_ss_total data : unmarshal_ss data <> Fuel.
+Proof.
+  unfold unmarshal_ss. repeat nf_step.
+  destruct (ss_cert_loop (Z.to_nat z2) l2) as [[? ?]| |] eqn:Ec; [|discriminate|exfalso; exact (ss_cert_loop_nf _ _ Ec)].
+  repeat nf_step.
 Qed.
